@@ -23,9 +23,10 @@ Proof.
   congruence.
 Qed.
 
-Definition multi_dom_mixed (st : fstyle) (parts : list mpart) (a : adoc) (file : bytes) : Prop :=
+Definition multi_dom_mixed (dec : dict -> bytes -> option (dict * bytes)) (can : dict -> bool)
+           (st : fstyle) (parts : list mpart) (a : adoc) (file : bytes) : Prop :=
   s_ostms st = [] /\
-  LoadsMultiMixed.parts_ok st a (part_xids parts) parts (blen (RefWriter.header st (a_version a))) None [] 0 /\
+  LoadsMultiMixed.parts_ok st a dec can (part_xids parts) parts (blen (RefWriter.header st (a_version a))) None [] 0 /\
   Forall top_ok (LoadsTableProofs.tops st a) /\ utf8_decode (a_version a) <> None /\
   (dict_get (a_trailer a) RefWriter.K_Size = None /\ dict_get (a_trailer a) K_Prev = None /\
    dict_get (a_trailer a) K_Encrypt = None /\ dict_get (a_trailer a) K_XRefStm = None /\
@@ -35,7 +36,7 @@ Definition multi_dom_mixed (st : fstyle) (parts : list mpart) (a : adoc) (file :
   LoadsMultiMixed.window_ok st parts file.
 
 Theorem loads_multi_mixed_full dec can st parts a file :
-  multi_dom_mixed st parts a file -> ref_write_multi st parts a = Some file ->
+  multi_dom_mixed dec can st parts a file -> ref_write_multi st parts a = Some file ->
   exists d t, load_ext dec can file = LOk d t /\ d_version d = a_version a /\
     (forall id, In (fst id) (part_xids parts) \/ same_opt (lookup (d_objects d) id) (lookup (content a) id)) /\
     (forall k, In k [bs "Type"; bs "W"; bs "Index"; bs "Length"; bs "Filter"; bs "DecodeParms"; bs "Size"] \/
